@@ -20,7 +20,8 @@ ENCODED = pipeline.PIPELINE_ENCODED + [
     'Loader._Loader__check_not_recursive']
 ASSUMPTIONS = [a for a in pipeline.PIPELINE_ASSUMPTIONS
                if not a.startswith('documents:')] + [
-    'documents: the base documents of the 16 core models, one node '
+    'documents: the base documents of the 16 core models and of a model '
+    'whose differently typed positions accept the same content, one node '
     'optionally retagged (free non-core tag or a palette tag), with one '
     'alias: every ordered pair (i, j) of nodes such that i is not an '
     'ancestor of j, including key positions and positions of different '
@@ -118,7 +119,7 @@ def cycles(m: int, shape: int) -> bool:
 
 
 _BASE_IDX = [k for k, (mi, bi, n) in enumerate(BASES)
-             if MODELS[mi][0] in pipeline.CORE]
+             if MODELS[mi][0] in pipeline.CORE or MODELS[mi][0] == 'typed']
 ALL = [k * NSUB + s for k in _BASE_IDX for s in range(min(NSUB, BASES[k][2]))]
 QUICKS = [k * NSUB + s for k in _BASE_IDX if BASES[k][1] == 0
           for s in range(min(NSUB, BASES[k][2]))]
